@@ -1,4 +1,5 @@
 import OxiModel.FiltersProofs
+import OxiModel.FilterImageProofs
 /-
   C19 — every row-filter strategy round-trips every byte pattern (line level).
   Property theorems only; helper lemmas live in `OxiModel/FiltersProofs.lean`.
@@ -39,6 +40,67 @@ theorem filter_byte_legal (ft bpp : Nat) (cur prior out : Bytes)
     split at hb
     · cases hb
     · split at hb <;> first | omega | cases hb
+
+/-! ### image level -/
+
+/-- **Every strategy, every per-row choice.** Filtering the rows of an image with ANY list of filter
+    types 0..4 — in particular the fixed type of the five delta strategies (with their first-row
+    fallback) and whatever a heuristic strategy picks row by row from the set it tries — and
+    reconstructing per the specification (prior row = previous reconstructed row of the same pass,
+    zeros at the start of a pass) returns exactly the rows that were filtered. -/
+theorem image_roundtrip_any_choice (bpp : Nat) (hb : 0 < bpp) (rows : List Row) (fts : List Nat)
+    (hfts : ∀ ft ∈ fts, ft ≤ 4) (hwf : RowsWF bpp rows none 0)
+    (frows : List (Nat × Bytes × Option Nat)) (h : filterRows bpp rows fts none [] = some frows) :
+    reconRows bpp frows none [] = some (rows.map (·.1)) :=
+  recon_filter_rows bpp hb rows fts none [] frows hfts hwf h
+
+/-- what a heuristic strategy may pick is always a legal filter type -/
+theorem heuristic_choices_legal (first : Bool) : ∀ ft ∈ heuristicChoices first, ft ≤ 4 := by
+  cases first <;> decide
+
+/-- The stream `filter_image` writes for a standard strategy is the serialisation (type byte, then
+    body, per row) of rows filtered with legal types, and reconstructs to the image data. -/
+theorem standard_strategy_roundtrip (strategy bpp : Nat) (hs : strategy ≤ 4) (hb : 0 < bpp)
+    (lines : List (UInt8 × Bytes × Option Nat × Nat)) (out : Bytes)
+    (hwf : RowsWF bpp (rowsOfLines lines) none 0)
+    (h : filterLinesStd strategy bpp lines none [] [] = some out) :
+    ∃ frows, out = serialise frows ∧ (∀ fr ∈ frows, fr.1 ≤ 4) ∧
+      reconRows bpp frows none [] = some ((rowsOfLines lines).map (·.1)) := by
+  rw [filterLinesStd_eq] at h
+  simp only [Option.map_eq_some_iff, List.nil_append] at h
+  obtain ⟨frows, hf, rfl⟩ := h
+  refine ⟨frows, rfl, ?_, ?_⟩
+  · -- the types written are the chosen ones
+    have : ∀ (rows : List Row) (fts : List Nat) (pp : Option Nat) (pl : Bytes) (fr : List (Nat × Bytes × Option Nat)),
+        (∀ ft ∈ fts, ft ≤ 4) → filterRows bpp rows fts pp pl = some fr → ∀ x ∈ fr, x.1 ≤ 4 := by
+      intro rows
+      induction rows with
+      | nil => intro fts pp pl fr _ h x hx; simp [filterRows] at h; subst h; cases hx
+      | cons r rest ih =>
+        intro fts pp pl fr hfts h x hx
+        obtain ⟨d, p⟩ := r
+        cases fts with
+        | nil => simp [filterRows] at h
+        | cons ft fts =>
+          simp only [filterRows] at h
+          split at h
+          · cases h
+          · simp only [Option.map_eq_some_iff] at h
+            obtain ⟨fr', hfr', rfl⟩ := h
+            rcases List.mem_cons.mp hx with rfl | hx
+            · exact hfts ft List.mem_cons_self
+            · exact ih fts p d fr' (fun f hf => hfts f (List.mem_cons_of_mem _ hf)) hfr' x hx
+    exact this _ _ _ _ _ (stdChoices_le strategy hs _ _) hf
+  · exact recon_filter_rows bpp hb _ _ none [] frows (stdChoices_le strategy hs _ _) hwf hf
+
+/-- oxipng's own `unfilter_image` is the specification's reconstruction on every well-formed
+    filtered image (legal filter bytes, whole pixels, equal row lengths within a pass). -/
+theorem unfilter_image_is_spec (bpp : Nat) (hb : 0 < bpp) (frows : List (Nat × Bytes × Option Nat))
+    (hwf : FRowsWF bpp frows none 0) :
+    unfilterLines bpp (toLines frows) none [] [] =
+      (reconRows bpp frows none []).map fun ls => some ls.flatten := by
+  have := unfilterLines_eq_reconRows bpp hb frows none [] [] hwf
+  simpa using this
 
 /-- Non-vacuity: the hypotheses are met by a concrete 2-pixel RGB row. -/
 example : ∃ body, filterLineBody 4 3 [1,2,3,250,4,9] [9,9,9,1,1,1] = some body ∧
